@@ -1,7 +1,8 @@
 // C17/C18/C19 implementation driver: the OKL translators of the library built from /repo, as a
 // persistent process (what `occa translate -m <mode> [-l]` does, without the CLI front end).
-//   input  line:  <mode> <0|1 launcher> <hex of the OKL source>
-//   output line:  R <hex of the translated source>      or      R ERR
+//   input  line:  <mode> <0|1|2> <hex of the OKL source>     0: kernel source, 1: launcher source,
+//                                                            2: both from one parse (launcher back ends)
+//   output line:  R <hex of the translated source> [<hex of the launcher source>]      or      R ERR
 //   input  line:  noop <outer x> <outer y> <outer z> <inner x> <inner y> <inner z>   (unsigned 64-bit)
 //   output line:  R 1  when occa::kernel::run hands a launch with these dimensions to the backend,
 //                 R 0  when it returns early (modeKernel_t::isNoop)
@@ -107,23 +108,28 @@ int main() {
       std::cout << "R ERR" << std::endl;
       continue;
     }
-    std::string out;
+    std::string out, out2;
     bool ok = false;
     try {
       parser->parseSource(src);
       ok = parser->succeeded();
       if (ok) {
-        if (launcher && withLauncher) {
+        if (launcher == 1 && withLauncher) {
           out = ((occa::lang::okl::withLauncher*) parser)->launcherParser.toString();
         } else {
           out = parser->toString();
+        }
+        if (launcher == 2 && withLauncher) {
+          out2 = ((occa::lang::okl::withLauncher*) parser)->launcherParser.toString();
         }
       }
     } catch (...) {
       ok = false;
     }
     delete parser;
-    if (ok) {
+    if (ok && launcher == 2) {
+      std::cout << "R " << hex(out) << " " << hex(out2) << std::endl;
+    } else if (ok) {
       std::cout << "R " << hex(out) << std::endl;
     } else {
       std::cout << "R ERR" << std::endl;
